@@ -122,7 +122,7 @@ export function makeRef(state, vue) {
           const dir = name === 'show' ? vue.vShow : vue.resolveDirective(name);
           const mods = {};
           for (const m of d.mods || []) mods[m] = true;
-          dirs.push({ dir, value: d.value, arg: d.arg, modifiers: mods });
+          dirs.push({ dir, value: d.value, arg: d.arg, argAlt: d.argAlt, modifiers: mods });
           break;
         }
         case 'vm': {
@@ -176,6 +176,7 @@ export function makeRef(state, vue) {
         dirAlt: d.dirAlt,
         value: d.value,
         arg: d.arg,
+        argAlt: d.argAlt,
         modifiers: d.modifiers,
       }));
     }
